@@ -39,6 +39,13 @@ Definition sjoin (sep : string) (l : list string) : string := String.concat sep 
 Definition drop_spaces (l : chars) : chars := snd (span is_space l).
 Definition all_space (l : chars) : bool := forallb is_space l.
 
+Fixpoint split_on_aux (c : ascii) (l : chars) (cur : chars) : list chars :=
+  match l with
+  | [] => [List.rev cur]
+  | x :: r => if Ascii.eqb x c then List.rev cur :: split_on_aux c r [] else split_on_aux c r (x :: cur)
+  end.
+Definition split_on (c : ascii) (l : chars) : list chars := split_on_aux c l [].
+
 (* ---------- segments.py ---------- *)
 Inductive phase := PA | PB | PRC | PPost | PDev.
 Definition phase_name (p : phase) : string :=
